@@ -23,6 +23,7 @@ func init() {
 			"W5 every destructive callee of the per-fork sweep is preceded by the symlinked-ancestor check; W6 a map stored into Fork.filePostNodes in a loop over forks is created in that loop; W7 the symlink check reaches every ancestor (recursion on the parent, or a loop whose stat depends on the loop's node). " +
 			"W8 util.Walk opens its root with O_NOFOLLOW. " +
 			"W9 cacheParamFileMap gives up only for nil outs; W10 the chunk temp sweep tolerates a missing temp directory. " +
+			"W11 getPartialKillReport / getVdrKillReport in partialVdrKill are called after storageLock.Lock(). " +
 			"NOT decided: equality of Count/Size with the bytes removed, completeness (no volatile file survives), merge arithmetic.",
 		Assumptions: commonAssumptions,
 	}
@@ -345,6 +346,7 @@ func runC14(c *an.Ctx) {
 	ruleW8(c)
 	ruleW9(c)
 	ruleW10(c)
+	ruleW11(c)
 	// ---------------- W3 ----------------
 	ruleW3(c)
 }
